@@ -4,6 +4,7 @@ Property theorems only (helpers in Proofs/Lemmas/C14*.lean). The model is Tab.* 
 Model/Tab/Pipeline.lean, the specification Spec.Cells.* in Model/Spec/Cells.lean.
 -/
 import Proofs.Lemmas.C14Tables
+import Proofs.Lemmas.C14Raw
 
 namespace C14
 open Tab Spec.Cells C14L
@@ -264,5 +265,134 @@ theorem cell_sampleWarnings (cfg : Cfg κ) (t : κ) (bt : BTable κ (List Bytes)
 example : residueWarning ["goos".toUTF8.toList, ".fullname".toUTF8.toList]
     [["linux".toUTF8.toList, "E/format=json".toUTF8.toList], ["linux".toUTF8.toList, "E/format=gob".toUTF8.toList]]
     = ["benchmarks vary in .fullname".toUTF8.toList] := by decide +kernel
+
+
+/-! ### composition with the C08/C09 model: keys computed from RAW results -/
+
+section Raw
+open Proc.Projection Proc.Sort Tab.RawPass
+
+/-- **cells_are_groupBy_raw** (composition with C08): run the loop of cmd/benchstat over RAW
+results (name, file configuration, units) with the flags' projections parsed into one shared
+parser state, for ANY hash function. Then every projection stays reachable, and for all keys of
+the final state the cell (t, r, c) holds exactly the values of the measurements whose PROJECTED
+VALUES — the tuples over the final flattened fields of the table (incl. unit), row and column
+projections — equal those of t, r and c, in input order. Key identity (what the Go maps are keyed
+by) is replaced by tuple identity through `C08.key_eq_iff`, not assumed. -/
+theorem cells_are_groupBy_raw {ν : Type} (h : List Bytes → UInt64) (specs : List (List Spec)) (raws : List Res)
+    (vals : List (List ν)) (pT pR pC : Proj)
+    (hlen : 4 < (rawWorld specs).projs.length)
+    (hT : (raws.foldl (rawStep h 4) (rawWorld specs, [])).1.projs[0]? = some pT)
+    (hR : (raws.foldl (rawStep h 4) (rawWorld specs, [])).1.projs[1]? = some pR)
+    (hC : (raws.foldl (rawStep h 4) (rawWorld specs, [])).1.projs[2]? = some pC) :
+    let stream := idStream (raws.foldl (rawStep h 4) (rawWorld specs, [])).2 vals
+    C08.Reachable h pT ∧ C08.Reachable h pR ∧ C08.Reachable h pC ∧
+    ∀ t r c, t < pT.nodes.length → r < pR.nodes.length → c < pC.nodes.length →
+      cellValues (build stream) t r c =
+        ((measOf stream).filter fun m =>
+          decide (tupleOf pT m.table = tupleOf pT t) && decide (tupleOf pR m.row = tupleOf pR r) &&
+          decide (tupleOf pC m.col = tupleOf pC c)).map (·.value) := by
+  intro stream
+  obtain ⟨hok, hv⟩ := rawFold_inv h 4 raws (rawWorld specs, []) (WorldOK_rawWorld h specs)
+    ⟨Nat.lt_trans (by decide) hlen, hlen⟩ (by intro e he; simp at he)
+  have rT := hok 0 pT hT
+  have rR := hok 1 pR hR
+  have rC := hok 2 pC hC
+  refine ⟨rT, rR, rC, ?_⟩
+  intro t r c ht hr hc
+  rw [(cells_are_groupBy stream).1 t r c]
+  unfold group
+  congr 1
+  apply List.filter_congr
+  intro m hm
+  -- every key in the stream is a key of the final state
+  have hvalid : m.table < pT.nodes.length ∧ m.row < pR.nodes.length ∧ m.col < pC.nodes.length := by
+    simp only [stream, measOf, idStream, List.mem_flatMap, List.mem_map] at hm
+    obtain ⟨res, ⟨kv, hkv, rfl⟩, tv, htv, rfl⟩ := hm
+    have hk := (List.of_mem_zip hkv).1
+    obtain ⟨h0, h1, h2, _⟩ := hv kv.1 hk
+    have e0 : nodesLen (raws.foldl (rawStep h 4) (rawWorld specs, [])).1 0 = pT.nodes.length := by
+      simp [nodesLen, hT]
+    have e1 : nodesLen (raws.foldl (rawStep h 4) (rawWorld specs, [])).1 1 = pR.nodes.length := by
+      simp [nodesLen, hR]
+    have e2 : nodesLen (raws.foldl (rawStep h 4) (rawWorld specs, [])).1 2 = pC.nodes.length := by
+      simp [nodesLen, hC]
+    refine ⟨?_, ?_, ?_⟩
+    · rw [← e0]; exact h0 _ (List.of_mem_zip htv).1
+    · rw [← e1]; exact h1
+    · rw [← e2]; exact h2
+  simp only [inCell]
+  rw [Bool.eq_iff_iff]
+  simp only [Bool.and_eq_true, decide_eq_true_eq]
+  rw [tuple_eq_iff h pT rT _ _ hvalid.1 ht, tuple_eq_iff h pR rR _ _ hvalid.2.1 hr,
+    tuple_eq_iff h pC rC _ _ hvalid.2.2 hc]
+
+/-- the hypothesis on the flags is inhabited: the default flags (-table .config, -row .fullname,
+-col .file, -ignore "") parse into five projections (table, row, col, ignore, residue) -/
+example : (rawWorld [[{ key := Proc.Extract.dotConfig, order := .first }], [{ key := Proc.Extract.dotFullname, order := .first }],
+    [{ key := ".file".toUTF8.toList, order := .first }], []]).projs.length = 5 := by decide +kernel
+
+/-- **rows_sorted_by_key_less** (composition with C09): take the `Key.Less` of a reachable
+projection state and rank every key of a duplicate-free list `d` of its keys by its position in
+the `Key.Less`-sorted arrangement of `d` (this is the `rank` data of the benchtab model). Then
+(1) the rank separates the keys of `d` — the `RankOK` hypothesis of C15 is discharged by
+`C09.key_less_strict_total`, not assumed — and (2) for every duplicate-free sub-collection `l`
+(the rows, columns or tables actually present) the model's `sortKeys` returns THE
+`Key.Less`-sorted arrangement of `l`: every sorted permutation `out` of `l` — whatever
+`sort.Slice` does — is equal to it. -/
+theorem rows_sorted_by_key_less (h : List Bytes → UInt64) (pn : Bytes → NumC) (p : Proj) (hr : C08.Reachable h p)
+    (d : List Nat) (hd : d.Nodup) (hvalid : ∀ k ∈ d, k < p.nodes.length) :
+    (∀ x y, x ∈ d → y ∈ d → rankOf pn p d x = rankOf pn p d y → x = y) ∧
+    ∀ l : List Nat, l.Nodup → (∀ k ∈ l, k ∈ d) →
+      ∀ out : List Nat, C09.Sorted (p.less pn) out → out.Perm l → out = Tab.sortKeys (rankOf pn p d) l := by
+  obtain ⟨hirr, hasym, htrans, htotal⟩ := C09.key_less_strict_total h pn p hr
+  have hS : C09.Sorted (p.less pn) (p.sortKeys pn d) := C09.sortBy_sorted _ hasym htrans _
+  have hP : (p.sortKeys pn d).Perm d := C09.sortBy_perm _ _
+  have hSn : (p.sortKeys pn d).Nodup := hP.nodup_iff.mpr hd
+  have hinj : ∀ x y, x ∈ d → y ∈ d → rankOf pn p d x = rankOf pn p d y → x = y := by
+    intro x y hx hy e
+    unfold rankOf at e
+    have hx' : x ∈ p.sortKeys pn d := hP.mem_iff.mpr hx
+    have hy' : y ∈ p.sortKeys pn d := hP.mem_iff.mpr hy
+    have b1 := List.idxOf_lt_length_of_mem hx'
+    have b2 := List.idxOf_lt_length_of_mem hy'
+    have g1 : (p.sortKeys pn d)[(p.sortKeys pn d).idxOf x] = x := List.getElem_idxOf b1
+    have g2 : (p.sortKeys pn d)[(p.sortKeys pn d).idxOf y] = y := List.getElem_idxOf b2
+    rw [← g1, ← g2]
+    congr 1
+  refine ⟨hinj, ?_⟩
+  intro l hl hsub out hso hpo
+  -- the model's arrangement is sorted by Key.Less
+  have hA : C09.Sorted (p.less pn) (Tab.sortKeys (rankOf pn p d) l) := by
+    have hs := sortKeys_sorted (rankOf pn p d) l
+    have hn := sortKeys_nodup (rankOf pn p d) hl
+    unfold C09.Sorted
+    rw [List.pairwise_iff_getElem] at hs ⊢
+    intro i j hi hj hij
+    have hne : (Tab.sortKeys (rankOf pn p d) l)[i] ≠ (Tab.sortKeys (rankOf pn p d) l)[j] := by
+      intro e
+      have := (List.getElem_inj hn).mp e
+      omega
+    have hxi : (Tab.sortKeys (rankOf pn p d) l)[i] ∈ d :=
+      hsub _ ((mem_sortKeys _ _ l).mp (List.getElem_mem hi))
+    have hxj : (Tab.sortKeys (rankOf pn p d) l)[j] ∈ d :=
+      hsub _ ((mem_sortKeys _ _ l).mp (List.getElem_mem hj))
+    have hle := hs i j hi hj hij
+    have hlt : rankOf pn p d (Tab.sortKeys (rankOf pn p d) l)[i] < rankOf pn p d (Tab.sortKeys (rankOf pn p d) l)[j] :=
+      Nat.lt_of_le_of_ne hle (fun e => hne (hinj _ _ hxi hxj e))
+    -- positions in the Key.Less-sorted list of d
+    unfold rankOf at hlt
+    have hxi' := hP.mem_iff.mpr hxi
+    have hxj' := hP.mem_iff.mpr hxj
+    have hS' := List.pairwise_iff_getElem.mp hS
+    have b1 := List.idxOf_lt_length_of_mem hxi'
+    have b2 := List.idxOf_lt_length_of_mem hxj'
+    have := hS' _ _ b1 b2 hlt
+    simpa [List.getElem_idxOf] using this
+  have hvalid' : ∀ k ∈ l, k < p.nodes.length := fun k hk => hvalid k (hsub k hk)
+  exact (C09.sortKeys_independent h pn p hr l l out (Tab.sortKeys (rankOf pn p d) l) hvalid' (List.Perm.refl l)
+    hso hpo hA (sortKeys_perm _ l)).1
+
+end Raw
 
 end C14
